@@ -98,6 +98,8 @@ pub struct Config {
     pub expect_conservation: bool,
     /// Cap on executions for this configuration.
     pub max_execs: usize,
+    /// Polls without observable change after which a self-waking task counts as quiescent.
+    pub k_noprogress: usize,
 }
 
 impl Default for Config {
@@ -129,6 +131,7 @@ impl Default for Config {
             spurious: false,
             expect_conservation: false,
             max_execs: 200_000,
+            k_noprogress: 4,
         }
     }
 }
